@@ -13,6 +13,7 @@ CHECKS = {
     "C06": ("harness.checks.wbicfam", "model_checking"),
     "C07": ("harness.checks.wbmemfam", "model_checking"),
     "C08": ("harness.checks.axilicfam", "model_checking"),
+    "C09": ("harness.checks.bridgesfam", "model_checking"),
     "C10": ("harness.checks.axiburstfam", "model_checking"),
     "C11": ("harness.checks.timeoutfam", "model_checking"),
     "C12": ("harness.checks.csrbankfam", "model_checking"),
